@@ -102,6 +102,19 @@ def layout_factory(spec):
     raise ValueError(spec)
 
 
+def cvc5_decide(text, scratch_dir):
+    p = os.path.join(scratch_dir, 'x-%d.smt2' % os.getpid())
+    open(p, 'w').write(text)
+    try:
+        r = subprocess.run(['cvc5', '--lang', 'smt2', p], capture_output=True, text=True, timeout=60)
+    except subprocess.TimeoutExpired:
+        return 'timeout'
+    out = (r.stdout + r.stderr).strip()
+    if '(error' in out:
+        return 'error: ' + out[:200]
+    return out.split('\n')[0].strip() if out else 'empty'
+
+
 def run_item(item):
     """explore every path of one work item under each of its layouts"""
     P = G['P']
@@ -113,6 +126,9 @@ def run_item(item):
     try:
         opts = dict(item.get('opts') or {})
         opts['target'] = target
+        xbudget = [2]
+        opts['xcheck'] = 1
+        opts['xcheck_every'] = 1 + (hash(item['name']) % 3)
         for lspec in item.get('layouts') or [None]:
             lf = layout_factory(lspec)
             per_layout = []
@@ -130,6 +146,14 @@ def run_item(item):
                 res['ops'] += max(sc.op_index + 1, 0)
                 res['max_depth'] = max(res['max_depth'], E.max_depth)
                 res['max_rc_drop_depth'] = max(res['max_rc_drop_depth'], E.max_rc_drop_depth)
+                for (text, expect) in sc.xchecks:
+                    if xbudget[0] <= 0:
+                        break
+                    xbudget[0] -= 1
+                    got = cvc5_decide(text, G.get('scratch', '/tmp'))
+                    res['extra']['cvc5_cross_checks'] = res['extra'].get('cvc5_cross_checks', 0) + 1
+                    if got != expect:
+                        res['error'] = 'solver disagreement: z3 says %s, cvc5 says %s on an oracle query of %s' % (expect, got, item['name'])
                 kind, exc = out
                 accept = item.get('accept_props') or [target]
                 if kind == 'violation' and exc.prop not in accept:
@@ -398,6 +422,7 @@ def run(prop, tier, seed, a, scratch, t_start):
     spec = props.PROPS[prop]
     P, mir, t_mir = prepare(scratch)
     G['P'] = P
+    G['scratch'] = scratch
     native = build_native(scratch)
     G['native'] = native
     log('[%s] MIR dump+parse %.1fs, %d bodies; native runner built' % (prop, t_mir, len(P.bodies)))
@@ -442,6 +467,7 @@ def run(prop, tier, seed, a, scratch, t_start):
     errors = [r for r in results if r.get('error')]
     extra = {}
     extra['vacuity_witnesses'] = sum(1 for r_ in results if r_.get('extra', {}).get('witness_violations'))
+    extra['cvc5_cross_checks'] = sum(r_.get('extra', {}).get('cvc5_cross_checks', 0) for r_ in results)
     if spec.get('finish'):
         extra = spec['finish'](tier, seed, P, native, results, scratch) or {}
     viols = [v for r in results for v in r['violations']] + list(extra.pop('violations', []))
